@@ -92,7 +92,7 @@ class SymExec:
             return self.init_env[l]
         return self.local_root(l)
 
-    def project(self, v, elems):
+    def project(self, v, elems, p=None):
         i = 0
         n = len(elems)
         while i < n:
@@ -136,7 +136,12 @@ class SymExec:
                 i += 1
                 continue
             if k == "ix":
-                v = ("F", v, None, "[i]")
+                iv = self.read_local(p, e[1]) if (p is not None and len(e) > 1) else ("?", "i")
+                key = ("idx", show(iv))
+                if v[0] == "O" and any(kk == key for (kk, _x) in v[2]):
+                    v = [x for (kk, x) in v[2] if kk == key][0]
+                else:
+                    v = ("F", v, None, "[%s]" % show(iv))
                 i += 1
                 continue
             v = ("F", v, None, str(e))
@@ -171,7 +176,7 @@ class SymExec:
 
     def read_place(self, p, place):
         v = self.read_local(p, place["l"])
-        return self.project(v, [pelem(e) for e in place["p"]])
+        return self.project(v, [pelem(e) for e in place["p"]], p)
 
     def operand(self, p, o):
         pl = op_place(o)
@@ -181,6 +186,8 @@ class SymExec:
         if k is not None:
             if "named" in k:
                 return ("K", k["named"])
+            if "static" in k:
+                return ("K", "static:" + k["static"])
             if "fn" in k:
                 return ("K", "fn:" + k["fn"])
             return ("K", k.get("val") if k.get("val") is not None and k.get("ty") in ("bool",) else k.get("repr"))
@@ -192,6 +199,16 @@ class SymExec:
         elems = [e for e in elems if e[0] != "deref"]
         if not elems:
             p.env[l] = v
+            return
+        if len(elems) == 1 and elems[0][0] == "ix":
+            iv = self.read_local(p, elems[0][1]) if len(elems[0]) > 1 else ("?", "ix")
+            old = self.read_local(p, l)
+            key = ("idx", show(iv))
+            if old[0] == "O":
+                ov = tuple((k, x) for (k, x) in old[2] if k != key) + ((key, v),)
+                p.env[l] = ("O", old[1], ov)
+            else:
+                p.env[l] = ("O", old, ((key, v),))
             return
         # field write: keep as override object
         variant = None
@@ -249,7 +266,7 @@ class SymExec:
             v = self.read_place(p, r["p"])
             return ("D", v, tuple((d, n) for d, n in r.get("variants", [])))
         if k == "repeat":
-            return ("T", (self.operand(p, r["o"]),))
+            return ("Rep", self.operand(p, r["o"]), str(r.get("n")))
         return ("?", r.get("dbg", k))
 
     # -- branching --------------------------------------------------------------
@@ -484,21 +501,49 @@ class SymExec:
                     continue
                 # temp = &mut L ?
                 src = self._mut_target(pl["l"])
-                if src is not None:
+                if src is not None and not self.body["locals"][src]["ty"].startswith("&"):
                     old = self.read_local(p, src)
                     p.env[src] = ("M", eid, old)
         self.write_place(p, t["dest"], val)
 
-    def _mut_target(self, tmp):
+    def _mut_target(self, tmp, depth=0):
+        """the local that reference temp `tmp` mutably points to, following reborrows, moves and
+        unsizing casts of single-definition temporaries"""
         if not hasattr(self, "_mt"):
             self._mt = {}
             for bl in self.blocks:
                 for s in bl["s"]:
-                    if s["k"] == "assign" and not s["l"]["p"] and s["r"]["k"] == "ref" and s["r"]["m"] == "mut" and not s["r"]["p"]["p"]:
-                        self._mt.setdefault(s["l"]["l"], set()).add(s["r"]["p"]["l"])
+                    if s["k"] != "assign" or s["l"]["p"]:
+                        continue
+                    r = s["r"]
+                    l = s["l"]["l"]
+                    if r["k"] == "ref" and r["m"] == "mut":
+                        q = r["p"]
+                        if not q["p"]:
+                            self._mt.setdefault(l, set()).add(("loc", q["l"]))
+                        elif all(e == "deref" for e in q["p"]):
+                            self._mt.setdefault(l, set()).add(("via", q["l"]))
+                        else:
+                            self._mt.setdefault(l, set()).add(("loc", q["l"]))
+                    elif r["k"] in ("use", "cast"):
+                        q = op_place(r["o"])
+                        if q is not None and not q["p"]:
+                            self._mt.setdefault(l, set()).add(("via", q["l"]))
+                t = bl["t"]
+                if t and t["k"] == "call" and not t["dest"]["p"] and t["args"]:
+                    nm = t.get("callee") or ""
+                    if nm.endswith("DerefMut::deref_mut") or nm.endswith("AsMut::as_mut") or nm.endswith("IndexMut::index_mut") or nm.endswith("BorrowMut::borrow_mut") or nm.endswith("::as_mut_slice"):
+                        q = op_place(t["args"][0])
+                        if q is not None and not q["p"]:
+                            self._mt.setdefault(t["dest"]["l"], set()).add(("via", q["l"]))
+        if depth > 10:
+            return None
         c = self._mt.get(tmp)
         if c and len(c) == 1:
-            return next(iter(c))
+            kind, l = next(iter(c))
+            if kind == "loc":
+                return l
+            return self._mut_target(l, depth + 1)
         return None
 
 
@@ -533,6 +578,8 @@ def show(v, depth=0):
         return "%s::%s{%s}" % (v[1].split("::")[-1], v[2], ", ".join("%s: %s" % (f, show(x, depth + 1)) for f, x in v[3]))
     if k == "T":
         return "(%s)" % ", ".join(show(x, depth + 1) for x in v[1])
+    if k == "Rep":
+        return "[%s; %s]" % (show(v[1], depth + 1), v[2])
     if k == "C":
         return "%s#%d(%s)" % (v[2].split("::")[-1], v[1], ", ".join(show(x, depth + 1) for x in v[3]))
     if k == "M":
